@@ -276,6 +276,222 @@ async fn dyn_execute(pool: &[Op], history: &[Step], st: &mut Stats) -> Option<u1
     Some(fp128(&sent))
 }
 
+
+// ------------------------------------------------------------------ undecodable states
+
+/// A peer that answers `GetState` with arbitrary bytes in the `set` field. It registers
+/// under the real service's name and the real message's path, with message and reply types
+/// whose archived layout is that of `GetState` / `KeyspaceOrSwotSet`.
+mod fake_peer {
+    use datacake_crdt::HLCTimestamp;
+    use datacake_rpc::{Handler, Request, RpcService, ServiceRegistry, Status};
+    use rkyv::{Archive, Deserialize, Serialize};
+
+    #[repr(C)]
+    #[derive(Serialize, Deserialize, Archive)]
+    #[archive(check_bytes)]
+    pub struct GetStateLike {
+        pub keyspace: String,
+        pub timestamp: HLCTimestamp,
+    }
+
+    #[repr(C)]
+    #[derive(Serialize, Deserialize, Archive)]
+    #[archive(check_bytes)]
+    pub struct StateLike {
+        pub timestamp: HLCTimestamp,
+        pub last_updated: HLCTimestamp,
+        #[with(rkyv::with::Raw)]
+        pub set: Vec<u8>,
+    }
+
+    pub struct FakeReplication {
+        pub blob: Vec<u8>,
+        pub stamp: HLCTimestamp,
+    }
+
+    impl RpcService for FakeReplication {
+        fn service_name() -> &'static str {
+            std::any::type_name::<datacake_eventual_consistency::verif::ReplicationService<datacake_eventual_consistency::test_utils::MemStore>>()
+        }
+        fn register_handlers(registry: &mut ServiceRegistry<Self>) {
+            registry.add_handler::<GetStateLike>();
+        }
+    }
+
+    #[datacake_rpc::async_trait]
+    impl Handler<GetStateLike> for FakeReplication {
+        type Reply = StateLike;
+        fn path() -> &'static str {
+            "datacake_eventual_consistency::rpc::services::replication_impl::GetState"
+        }
+        async fn on_message(&self, _msg: Request<GetStateLike>) -> Result<StateLike, Status> {
+            Ok(StateLike { timestamp: self.stamp, last_updated: self.stamp, set: self.blob.clone() })
+        }
+    }
+}
+
+/// Fetches `blob` as a keyspace state from the fake peer through the real client.
+fn fetch_blob(blob: &[u8]) -> Result<Result<Set2, String>, String> {
+    let blob = blob.to_vec();
+    vkit::quiet::catch(move || {
+        vkit::e2::block_on_fresh(async move {
+            reset_seams();
+            let _wall = Wall::start();
+            let server = datacake_rpc::Server::listen(node_addr(1)).await.expect("listen");
+            let peer_clock = Clock::new(2);
+            let stamp = Clock::new(1).get_time().await;
+            server.add_service(fake_peer::FakeReplication { blob, stamp });
+            let r = fetch("whatever", &peer_clock).await;
+            server.shutdown();
+            r
+        })
+    })
+}
+
+fn hex(b: &[u8]) -> String {
+    b.iter().map(|b| format!("{b:02x}")).collect()
+}
+
+fn unhex(s: &str) -> Vec<u8> {
+    (0..s.len() / 2).map(|i| u8::from_str_radix(&s[2 * i..2 * i + 2], 16).unwrap_or(0)).collect()
+}
+
+/// Child-process body: serve `blob` from the fake peer, fetch it with the real client and
+/// print one verdict line. The reference is rkyv's validating decoder on the same bytes.
+pub fn blob_worker(blob_hex: &str) -> i32 {
+    let blob = unhex(blob_hex);
+    let mut aligned = rkyv::AlignedVec::with_capacity(blob.len());
+    aligned.extend_from_slice(&blob);
+    let reference = Set2::from_bytes(&aligned).ok();
+    let verdict = match (&reference, fetch_blob(&blob)) {
+        (None, Err(p)) => format!("undecodable-panics {}", p.replace('\n', " ")),
+        (None, Ok(Ok(_))) => "undecodable-used".to_string(),
+        (None, Ok(Err(_))) => "undecodable-refused".to_string(),
+        (Some(_), Err(p)) => format!("decodable-panics {}", p.replace('\n', " ")),
+        (Some(r), Ok(Ok(s))) => {
+            if r.verif_snapshot() == s.verif_snapshot() {
+                "decodable-same".to_string()
+            } else {
+                "decodable-differs".to_string()
+            }
+        },
+        (Some(_), Ok(Err(e))) => format!("decodable-refused {e}"),
+    };
+    println!("VERDICT {verdict}");
+    0
+}
+
+fn probe_blob(blob: &[u8]) -> String {
+    let exe = std::env::current_exe().expect("current exe");
+    let out = std::process::Command::new(exe)
+        .arg("--c19-blob-worker")
+        .arg(hex(blob))
+        .env_remove("RUST_BACKTRACE")
+        .output()
+        .expect("spawn blob worker");
+    let text = String::from_utf8_lossy(&out.stdout);
+    for line in text.lines() {
+        if let Some(v) = line.strip_prefix("VERDICT ") {
+            return v.to_string();
+        }
+    }
+    let err = String::from_utf8_lossy(&out.stderr);
+    format!(
+        "process-died {:?} {}",
+        out.status.code(),
+        err.lines().filter(|l| !l.trim().is_empty()).last().unwrap_or("").trim()
+    )
+}
+
+fn undecodable_blobs(tier: Tier) -> (Set2, Vec<(String, Vec<u8>)>) {
+    let genuine = size_state(9, 4, 2, true);
+    let bytes = genuine.as_bytes().expect("serialise").to_vec();
+    let mut blobs: Vec<(String, Vec<u8>)> = vec![
+        ("genuine state".into(), bytes.clone()),
+        ("empty".into(), vec![]),
+        ("one zero byte".into(), vec![0]),
+        ("seven bytes".into(), vec![1, 2, 3, 4, 5, 6, 7]),
+        ("sixteen zero bytes".into(), vec![0; 16]),
+        ("sixteen 0xFF bytes".into(), vec![0xFF; 16]),
+        ("text".into(), b"this is not an archived set at all, just some text....".to_vec()),
+    ];
+    for cut in (0..bytes.len()).step_by(tier.pick(16, 4)) {
+        blobs.push((format!("genuine state truncated to {cut} of {} bytes", bytes.len()), bytes[..cut].to_vec()));
+    }
+    for pos in (0..bytes.len()).step_by(tier.pick(24, 4)) {
+        let mut b = bytes.clone();
+        b[pos] ^= 0xFF;
+        blobs.push((format!("genuine state with byte {pos} inverted"), b));
+    }
+    // the tail holds the root object (relative pointers and lengths): every bit there
+    let tail = bytes.len().saturating_sub(tier.pick(24, 96));
+    for pos in tail..bytes.len() {
+        for bit in 0..8 {
+            let mut b = bytes.clone();
+            b[pos] ^= 1 << bit;
+            blobs.push((format!("genuine state with bit {bit} of byte {pos} flipped"), b));
+        }
+    }
+    (genuine, blobs)
+}
+
+fn blob_kind(label: &str, len: usize) -> &'static str {
+    if len < 64 {
+        "short"
+    } else if label.contains("truncated") {
+        "truncated"
+    } else {
+        "damaged"
+    }
+}
+
+fn undecodable_part(tier: Tier, st: &mut Stats) {
+    let (_genuine, blobs) = undecodable_blobs(tier);
+    // control: the impersonation works at all (otherwise everything below would be refused
+    // for the wrong reason)
+    let control = probe_blob(&blobs[0].1);
+    if control != "decodable-same" {
+        st.violation(
+            "harness/fake-peer-control-transfer-failed",
+            || format!("a genuine state served by the fake peer was not received intact: {control}"),
+            || J::obj().set("blob", "genuine state"),
+        );
+        return;
+    }
+    let verdicts = vkit::par::par_map(&blobs, |_, b| probe_blob(&b.1));
+    for ((label, blob), verdict) in blobs.iter().zip(verdicts) {
+        st.inc("undecodable_candidates");
+        let kind = blob_kind(label, blob.len());
+        let case = || J::obj().set("blob", label.clone()).set("blob_len", blob.len()).set("blob_hex", hex(blob));
+        let word = verdict.split(' ').next().unwrap_or("").to_string();
+        match word.as_str() {
+            "undecodable-refused" => {
+                st.inc("undecodable_blobs");
+                st.inc("undecodable_blobs_refused");
+            },
+            "undecodable-used" => {
+                st.inc("undecodable_blobs");
+                st.violation(
+                    &format!("undecodable-state-used/{kind}"),
+                    || format!("a state that does not decode ({label}) was accepted by the client as a state"),
+                    case,
+                );
+            },
+            "undecodable-panics" | "process-died" => {
+                st.inc("undecodable_blobs");
+                st.violation(
+                    &format!("undecodable-state-crashes/{kind}"),
+                    || format!("a state that does not decode ({label}) crashed the receiving side: {verdict}"),
+                    case,
+                );
+            },
+            "decodable-same" => st.inc("decodable_blobs"),
+            _ => st.violation(&format!("decodable-state-mishandled/{word}"), || format!("{label}: {verdict}"), case),
+        }
+    }
+}
+
 pub fn run(tier: Tier) -> i32 {
     let mut report = Report::new("C19", tier, "exploration");
     let mut total = Stats::default();
@@ -292,6 +508,8 @@ pub fn run(tier: Tier) -> i32 {
         let mid = &fam.states[fam.states.len() / 2];
         total.sample(|| J::obj().set("family", &fam.name).set("state", mid.0.chars().take(400).collect::<String>()));
     }
+
+    undecodable_part(tier, &mut total);
 
     let pool = c02::pool();
     let al = dyn_alphabet(&pool);
@@ -324,6 +542,7 @@ pub fn run(tier: Tier) -> i32 {
     report.cover("dynamic_frontier_left_unexplored", sum.frontier_left);
     report.cover("exhaustive", true);
     report.guard(distinct > 500, "fewer than 500 distinct states transferred");
+    report.guard(report.cover_get("undecodable_blobs") > 20, "fewer than 20 undecodable blobs were tried");
     report.guard(sum.states > 100, "fewer than 100 dynamic states");
     report.assume("in-process transport: the reply body is a single chunk; the multi-chunk HTTP/2 path is exercised by the turmoil harness of C14");
     report.assume("debug assertions are on: a misaligned or out-of-bounds access while decoding the nested archive panics instead of being undefined behaviour");
@@ -331,6 +550,11 @@ pub fn run(tier: Tier) -> i32 {
 }
 
 pub fn replay(case: &J) -> i32 {
+    if let Some(h) = case.get("blob_hex").and_then(|v| v.as_str()) {
+        let verdict = probe_blob(&unhex(h));
+        println!("blob served by the fake peer: {verdict}");
+        return !(verdict == "undecodable-refused" || verdict == "decodable-same") as i32;
+    }
     if case.get("requests").is_some() {
         let pool = c02::pool();
         // reuse C02's history format
